@@ -356,7 +356,7 @@ class Runner:
         outdir = os.path.join(VERIF, "out", prop)
         os.makedirs(outdir, exist_ok=True)
         for old in os.listdir(outdir):
-            if old.endswith(".json"):
+            if old.endswith(".json") and old != "evidence-scratch.json":
                 os.unlink(os.path.join(outdir, old))
         known = load_known_findings(prop)
         lines = []
